@@ -107,6 +107,10 @@ POLISH_INSTANCES = '''
 Definition polish_cfg (auto : bool) := {| tab := polish_table; auto_preds := auto; frozen := false |}.
 Theorem C13_polish_never_other : forall auto P i k, fst (parse_polish (polish_cfg auto) P i) <> OErr k.
 Proof. intros. apply C13_parse_never_other; [exact obl_polish_table_ok | left; reflexivity]. Qed.
+Theorem C13_polish_wf : forall auto P i s P', store_ok P = true ->
+  parse_polish (polish_cfg auto) P i = (OK s, P') ->
+  wf_items s = true /\\ closed s = true /\\ nonvacuous s = true /\\ norebind s = true /\\ arity_ok P' s = true.
+Proof. intros auto P i s P'. exact (C13_parse_wf (polish_cfg auto) obl_polish_table_ok P i s P'). Qed.
 '''
 
 STD_INSTANCES = '''
@@ -438,7 +442,9 @@ def boundary(chk: Check, notn: str, ref: pl.Ref, thorough: bool):
 
 
 THEOREMS = ['C13_parse_never_other', 'C13_parse_terminates', 'C13_parse_wf', 'C13_parse_pure',
-            'C13_parse_frozen_refuted']
+            'C13_parse_history_independent', 'C13_parse_store_grows', 'C13_parse_noauto_store',
+            'C13_parse_frozen_refuted', 'gen: C13_polish_never_other', 'gen: C13_polish_wf',
+            'gen: C13_polish_frozen_refuted']
 
 EXPLANATION = (
     'obligations = expressibility of the regenerated parse tables in the model\'s item language (operator arities, '
